@@ -540,6 +540,58 @@ func r9_2(c *Ctx, enc *ssa.Function, alphabet string, alphaIdx *ssa.Index) {
 		}
 	}
 	c.check(termOK, "loop ends when no bits remain", enc.Pos(), "exit on remainder == 0 after emitting the digit", "the digit loop does not end exactly when the shifted remainder is zero")
+	// … and on no other condition: every edge that leaves the digit loop is a remainder == 0 edge (a bound on the
+	// number of digits would cut a large value short and leave the last digit's continuation bit set)
+	if shr != nil {
+		reach := func(from, to *ssa.BasicBlock) bool {
+			seen := map[*ssa.BasicBlock]bool{}
+			var dfs func(b *ssa.BasicBlock) bool
+			dfs = func(b *ssa.BasicBlock) bool {
+				if seen[b] {
+					return false
+				}
+				seen[b] = true
+				for _, s2 := range b.Succs {
+					if s2 == to || dfs(s2) {
+						return true
+					}
+				}
+				return false
+			}
+			return dfs(from)
+		}
+		hb := shr.Block()
+		inLoop := func(b *ssa.BasicBlock) bool { return b == hb && reach(hb, hb) || reach(b, hb) && reach(hb, b) }
+		var other []string
+		for _, b := range enc.Blocks {
+			if !inLoop(b) {
+				continue
+			}
+			for i, s2 := range b.Succs {
+				if inLoop(s2) {
+					continue
+				}
+				zeroExit := false
+				if iff := blockIf(b); iff != nil {
+					if bo, ok := iff.Cond.(*ssa.BinOp); ok && bo.X == ssa.Value(shr) {
+						if k, isK := constInt64(bo.Y); isK && k == 0 {
+							zeroExit = (bo.Op == token.EQL && i == 0) || ((bo.Op == token.NEQ || bo.Op == token.GTR) && i == 1)
+						}
+					}
+				}
+				if !zeroExit {
+					p := ""
+					if iff := blockIf(b); iff != nil {
+						p = c.pos(iff.Cond.Pos())
+					}
+					other = append(other, p)
+				}
+			}
+		}
+		if reach(hb, hb) {
+			c.check(len(other) == 0, "digit loop has no other exit", enc.Pos(), "every edge leaving the loop is the remainder == 0 edge", fmt.Sprintf("the digit loop can also end while bits remain (%s): the value is truncated and the last digit keeps its continuation bit, so the segment swallows the next field", strings.Join(other, ", ")))
+		}
+	}
 }
 
 func posOf(b *ssa.BinOp, f *ssa.Function) token.Pos {
